@@ -394,6 +394,7 @@ type session struct {
 	total    []int            // per stream: data octets accepted
 	wantWU   map[uint32]int64 // credit the sender is owed
 	creditOK bool             // false once a credit failure was reported (report once)
+	gaveUp   bool             // a stranding failure was reported: the case is decided
 }
 
 func (x *session) fail(liveness bool, sig, format string, args ...interface{}) {
@@ -574,6 +575,7 @@ func (x *session) check(step int, what string) {
 			st = x.stranded()
 		}
 		if len(st) > 0 {
+			x.gaveUp = true // later steps would only wait for the same data again
 			x.fail(true, "C09/stranding/"+shapeOf(x.c, step)+"/data-held-despite-credit", "after step %d (%s), %v without further input: %s", step, what, x.bound, st[0])
 		}
 	}
@@ -672,6 +674,9 @@ func runOnce(c Case, bound time.Duration) (kit.Verdict, bool) {
 			return x.v, x.slow
 		}
 		x.check(i, fmt.Sprintf("%s s=%d n=%d pad=%d end=%v rep=%v first=%d", op.K, op.S, op.N, op.Pad, op.End, op.Rep, op.First))
+		if x.gaveUp {
+			return x.v, x.slow
+		}
 	}
 
 	// final drain: with ample credit everything accepted must come out
